@@ -101,9 +101,10 @@ theorem insertHash_spec (hins : HashedInsertOK hash) (t : Mixed) (inv : Inv hash
 theorem insert_spec (hins : HashedInsertOK hash) (hmig : ArrayMigrationOK hash) (t : Mixed) (inv : Inv hash t)
     (k : Key) (v : Val) :
     ∃ t', insert hash t k v = some t' ∧ Inv hash t' ∧
-      (∀ k', abs t' k' = if k' = k.norm then some v else abs t k') := by
+      (∀ k', abs t' k' = if k' = k.norm then some v else abs t k') ∧
+      ((abs t k.norm).isSome = true → SamePositions t t') := by
   -- inserting into the hash part, growing first when it is full
-  have viaHash : ∀ kk : Key, kk.norm = kk → (∀ z, kk = .int z → ¬ inArr t.arr z) →
+  have viaGrow : ∀ kk : Key, kk.norm = kk → (∀ z, kk = .int z → ¬ inArr t.arr z) →
       ∃ t', (if hFull t.hash = true then
           (grow hash t).bind (fun t' =>
             match toInt kk with
@@ -141,6 +142,34 @@ theorem insert_spec (hins : HashedInsertOK hash) (hmig : ArrayMigrationOK hash) 
     · have hf' : hFull t.hash = false := by simpa using hf
       simp only [hf, if_false, Bool.false_eq_true]
       exact insertHash_spec hash hins t inv kk v hnorm hout hf'
+  -- the hash part: `reset` first (an existing field is assigned in place), then grow / insert
+  have viaHash : ∀ kk : Key, kk.norm = kk → (∀ z, kk = .int z → ¬ inArr t.arr z) →
+      ∃ t', ((hReset hash t.hash kk v).bind (fun r =>
+          if r.2 = true then some { t with hash := r.1 }
+          else if hFull t.hash = true then
+            (grow hash t).bind (fun t' =>
+              match toInt kk with
+              | some i => (arrSetValue t'.arr i (some v)).bind (fun r =>
+                  if r.2 = true then some { t' with arr := r.1 } else insertHash hash t' kk v)
+              | none => insertHash hash t' kk v)
+          else insertHash hash t kk v)) = some t' ∧ Inv hash t' ∧
+        (∀ k', abs t' k' = if k' = kk then some v else abs t k') ∧
+        ((abs t kk).isSome = true → SamePositions t t') := by
+    intro kk hnorm hout
+    obtain ⟨h', e, hinv, habs, hkeys, hsome⟩ := hReset_spec hash t.hash _ inv.hash kk v
+    have e0 : abs t kk = hashAbs t.hash kk := by
+      cases kk with
+      | int z => exact abs_int_out t z (hout z rfl)
+      | _ => exact abs_nonint t _ (fun z => by simp)
+    by_cases hs : (hashAbs t.hash kk).isSome = true
+    · refine ⟨{ t with hash := h' }, by simp [e, hs], ⟨inv.arr, hinv, inv.pow2⟩, ?_, fun _ => ⟨rfl, hkeys, rfl, hsome⟩⟩
+      simp only [hs, and_true] at habs
+      exact abs_hash_update t h' kk (some v) hout habs
+    · obtain ⟨t', e', i', a'⟩ := viaGrow kk hnorm hout
+      refine ⟨t', ?_, i', a', ?_⟩
+      · simp only [e, Option.bind_some, hs, Bool.false_eq_true, if_false]
+        exact e'
+      · intro hp; rw [e0] at hp; exact absurd hp hs
   unfold insert
   cases hti : toInt k with
   | none =>
@@ -148,10 +177,14 @@ theorem insert_spec (hins : HashedInsertOK hash) (hmig : ArrayMigrationOK hash) 
     rw [hn]
     have := viaHash k hn (fun z ez => absurd ez (hni z))
     simp only [hti] at this
-    obtain ⟨t', e, i', a'⟩ := this
-    refine ⟨t', ?_, i', a'⟩
+    obtain ⟨t', e, i', a', sp⟩ := this
+    refine ⟨t', ?_, i', a', sp⟩
     rw [← e]
-    by_cases hf : hFull t.hash = true <;> simp [hf]
+    cases hr : hReset hash t.hash k v with
+    | none => rfl
+    | some r =>
+      obtain ⟨h, w⟩ := r
+      cases w <;> by_cases hf : hFull t.hash = true <;> simp [hf]
   | some i =>
     rw [norm_of_toInt_some k i hti]
     by_cases hin : inArr t.arr i
@@ -160,15 +193,20 @@ theorem insert_spec (hins : HashedInsertOK hash) (hmig : ArrayMigrationOK hash) 
       | some a =>
         rw [ha] at hin
         obtain ⟨a', e, ainv', hlen, hat⟩ := arrSetValue_in a i v hin (inv.arr a ha)
+        have hsz : arrSize (some a') = arrSize t.arr := by simp [arrSize, hlen, ha]
         exact ⟨{ t with arr := some a' }, by simp [e], inv_arr_update hash t inv a a' ha hlen ainv',
-          abs_arr_update t a a' ha hlen i hin (some v) hat⟩
+          abs_arr_update t a a' ha hlen i hin (some v) hat, fun _ => ⟨hsz, rfl, by simp [ha], rfl⟩⟩
     · simp only [arrSetValue_out t.arr i v hin, Option.bind_eq_bind, Option.bind_some, Bool.false_eq_true, if_false]
       have := viaHash (.int i) (by simp [Key.norm, Key.toInt?]) (fun z ez => by cases ez; exact hin)
       simp only [toInt, Key.toInt?] at this
-      obtain ⟨t', e, i', a'⟩ := this
-      refine ⟨t', ?_, i', a'⟩
+      obtain ⟨t', e, i', a', sp⟩ := this
+      refine ⟨t', ?_, i', a', sp⟩
       rw [← e]
-      by_cases hf : hFull t.hash = true <;> simp [hf]
+      cases hr : hReset hash t.hash (.int i) v with
+      | none => rfl
+      | some r =>
+        obtain ⟨h, w⟩ := r
+        cases w <;> by_cases hf : hFull t.hash = true <;> simp [hf]
 
 end
 end GoluaVerif.Model.Table
